@@ -383,11 +383,11 @@ impl Filter<Value> for VrlFilter {
                 )
             }
             // Tag values need extracting by "key:value" to be compared.
-            Field::Tag(_) => resolve_value(
+            Field::Tag(tag) => resolve_value(
                 buf,
                 Run::boxed(move |value| match value {
                     Value::Array(v) => v.iter().any(|v| match string_value(v).split_once(':') {
-                        Some((_, lhs)) => {
+                        Some((key, lhs)) if key == tag => {
                             let lhs = Cow::from(lhs);
 
                             match comparator {
